@@ -121,9 +121,129 @@ def compare(repo):
     return sites, sorted(have - expected), sorted(expected - have), len(expected)
 
 
+# --------------------------------------------------------------------------------------------
+# global state: every item of the workspace that can outlive one compilation
+# --------------------------------------------------------------------------------------------
+
+GLOBAL_DECL = re.compile(
+    r"^\s*(?:pub(?:\([a-z]+\))?\s+)?(?:(thread_local!\s*[({]\s*(?:pub(?:\([a-z]+\))?\s+)?static)|(lazy_static!)|(static))\s+(mut\s+)?([A-Za-z_][A-Za-z_0-9]*)\s*:\s*(.*)$")
+INTERIOR = re.compile(r"\b(RefCell|Cell|Mutex|RwLock|Atomic[A-Z][A-Za-z0-9]*|OnceCell|OnceLock|UnsafeCell)\b")
+GLOBAL_OUT = os.path.join(os.path.dirname(os.path.abspath(__file__)), "..", "lean", "Grass", "Generated", "GlobalState.lean")
+GLOBAL_EXPECTED = os.path.join(os.path.dirname(os.path.abspath(__file__)), "data", "c02_global_state.json")
+
+
+def scan_globals(repo):
+    """Every `static` / `static mut` / `thread_local!` / `lazy_static!` item in crates/*/src (tests and
+    doc comments excluded), with a class read off its declared type:
+      thread-local   `thread_local!` — one value per thread, lives as long as the thread
+      counter        an `Atomic*` (only `fetch_add`/`load` style writes after initialisation)
+      const-after-init   no interior mutability in the declared type (`Lazy<T>`/`once_cell` initialise once) and not `static mut`
+      unknown        anything else (`static mut`, `Mutex<…>`, `RefCell` outside thread_local, …)"""
+    out = []
+    for crate in sorted(os.listdir(os.path.join(repo, "crates"))):
+        root = os.path.join(repo, "crates", crate, "src")
+        for d, _, fs in sorted(os.walk(root)):
+            for f in sorted(fs):
+                if not f.endswith(".rs"):
+                    continue
+                path = os.path.join(d, f)
+                try:
+                    lines = open(path, encoding="utf-8").read().split("\n")
+                except OSError:
+                    continue
+                for no, raw in enumerate(lines, 1):
+                    if raw.lstrip().startswith("//"):
+                        continue
+                    line = _strip_comment(raw)
+                    m = GLOBAL_DECL.match(line)
+                    if not m:
+                        if re.search(r"\b(thread_local!|lazy_static!)", line) and not line.lstrip().startswith("use "):
+                            # macro opened on its own line: the static follows; take the next `static` line
+                            for k in range(no, min(no + 4, len(lines))):
+                                m2 = re.match(r"^\s*(?:pub(?:\([a-z]+\))?\s+)?static\s+(?:ref\s+)?(mut\s+)?([A-Za-z_][A-Za-z_0-9]*)\s*:\s*(.*)$", lines[k])
+                                if m2:
+                                    ty = m2.group(3)
+                                    tl = "thread_local!" in line
+                                    out.append({"file": os.path.relpath(path, repo), "line": k + 1, "name": m2.group(2),
+                                                "decl": _norm(lines[k])[:160],
+                                                "cls": "thread-local" if tl else ("unknown" if INTERIOR.search(ty.split("=")[0]) else "const-after-init")})
+                                    break
+                        continue
+                    tl, lz, st, mut, name, ty = m.groups()
+                    ty_decl = ty.split("=")[0]
+                    if tl:
+                        cls = "thread-local"
+                    elif mut:
+                        cls = "unknown"
+                    elif re.search(r"\bAtomic[A-Z]", ty_decl):
+                        cls = "counter"
+                    elif INTERIOR.search(ty_decl):
+                        cls = "unknown"
+                    else:
+                        cls = "const-after-init"
+                    out.append({"file": os.path.relpath(path, repo), "line": no, "name": name, "decl": _norm(line)[:160], "cls": cls})
+    seen, uniq = set(), []
+    for g in out:
+        k = (g["file"], g["name"])
+        if k not in seen:
+            seen.add(k)
+            uniq.append(g)
+    return uniq
+
+
+def _lean_str(s):
+    return '"' + s.replace("\\", "\\\\").replace('"', '\\"') + '"'
+
+
+def render_globals(items):
+    cls = {"thread-local": ".threadLocal", "counter": ".counter", "const-after-init": ".constAfterInit", "unknown": ".unknown"}
+    L = ["/- GENERATED by tools/translate_iter_sites.py (scan_globals) from /repo/crates/*/src — do not edit.",
+         "   Every `static` / `thread_local!` / `lazy_static!` item of the workspace: the complete list of state",
+         "   declared by grass itself that can outlive one compilation, with a class read off the declared type. -/",
+         "namespace Grass.Generated.GlobalState", "",
+         "inductive GlobalClass where", "  | constAfterInit | threadLocal | counter | unknown", "  deriving DecidableEq, Repr, Inhabited", "",
+         "structure GlobalItem where", "  file : String", "  name : String", "  decl : String", "  cls : GlobalClass", "  deriving Repr, Inhabited", "",
+         "def globalState : List GlobalItem := ["]
+    L.append(",\n".join(f"  {{ file := {_lean_str(g['file'])}, name := {_lean_str(g['name'])}, decl := {_lean_str(g['decl'])}, cls := {cls[g['cls']]} }}"
+                        for g in items) + "]")
+    L += ["", "end Grass.Generated.GlobalState", ""]
+    return "\n".join(L)
+
+
+def generate_globals(repo, write=True):
+    """Regenerates Grass/Generated/GlobalState.lean; returns (items, changed, new, gone) against the committed list."""
+    items = scan_globals(repo)
+    text = render_globals(items)
+    out = os.path.normpath(GLOBAL_OUT)
+    old = open(out, encoding="utf-8").read() if os.path.exists(out) else None
+    changed = old != text
+    if write and changed:
+        tmp = out + f".tmp{os.getpid()}"
+        with open(tmp, "w", encoding="utf-8") as f:
+            f.write(text)
+        os.replace(tmp, out)
+    try:
+        expected = set(json.load(open(GLOBAL_EXPECTED))["items"])
+    except (OSError, ValueError, KeyError):
+        expected = None
+    have = {f"{g['file']}::{g['name']}::{g['cls']}" for g in items}
+    if expected is None:
+        return items, changed, None, None
+    return items, changed, sorted(have - expected), sorted(expected - have)
+
+
 if __name__ == "__main__":
     repo = os.environ.get("GRASS_REPO", "/repo")
-    if len(sys.argv) > 1 and sys.argv[1] == "--write-expected":
+    if len(sys.argv) > 1 and sys.argv[1] == "--globals":
+        items, changed, new, gone = generate_globals(repo)
+        if "--write-expected" in sys.argv:
+            with open(GLOBAL_EXPECTED, "w") as f:
+                json.dump({"comment": "C02: static/thread_local items of the pinned tree (tools/translate_iter_sites.py --globals)",
+                           "items": sorted(f"{g['file']}::{g['name']}::{g['cls']}" for g in items)}, f, indent=1)
+        print(len(items), "global items; changed:", changed, "new:", new, "gone:", gone)
+        for g in items:
+            print(f"{g['file']}:{g['line']} {g['name']} [{g['cls']}] {g['decl'][:100]}")
+    elif len(sys.argv) > 1 and sys.argv[1] == "--write-expected":
         sites = scan(repo)
         os.makedirs(os.path.dirname(EXPECTED_PATH), exist_ok=True)
         with open(EXPECTED_PATH, "w") as f:
